@@ -4,7 +4,7 @@ import os
 import subprocess
 import sys
 
-from vmon import env, hooks, scopes
+from vmon import env, hooks, scopes, tablegen
 from vmon.hooks import MON, call_guard
 from vmon.hostile import hostile_selfies, LEGACY, MODERN
 from vmon.legacy import modernize
@@ -86,7 +86,7 @@ def run(ctx):
     try:
         for i in range(n):
             if i % 200 == 0:
-                sf.set_semantic_constraints(rng.choice(tables))
+                tablegen.set_table_hostile(sf, rng.choice(tables), rng, ctx)
             if i % 10 == 9:
                 cls, x = "live", g.string(rng.choice([1, 2, 3]), rng.choice([5, 30, 100]))
                 if rng.random() < 0.5:
